@@ -384,6 +384,9 @@ class Scan:
         for st in f.body:
             if is_inv(st):
                 return (True, True)
+            # `try: ... self._add(...) ... finally: self._invalidate()`: reached on every path
+            if isinstance(st, ast.Try) and any(is_inv(x) for x in st.finalbody):
+                return (True, True)
         for st in f.body:
             if isinstance(st, ast.If) and any(is_inv(x) for x in st.body):
                 t = ast.unparse(st.test).replace(' ', '')
@@ -904,6 +907,47 @@ class Scan:
                     damages.append((q, slot))
         return handouts, mutations, damages
 
+    # ---- round 3: symbol registry
+    def symbol_registry(self):
+        """(deleteCleansKinds, contextsShareSymbols)
+        deleteCleansKinds: after `symbol_delete(n)` the name is unknown again to `register(kind='expr')`: either the
+          early return of `register` tests the registry itself (`name in self`), or both `SymbolRegistry.delete` and
+          sym.py `symbol_delete` drop the name from `symbol_kinds`
+        contextsShareSymbols: `State.new_context` gives every context the one process-wide registry"""
+        d = os.path.join(self.repo, 'lcapy')
+        cleans = False
+        try:
+            tree = ast.parse(open(os.path.join(d, 'symbolregistry.py')).read())
+            reg_ok = del_ok = False
+            for cls in [n for n in tree.body if isinstance(n, ast.ClassDef) and n.name == 'SymbolRegistry']:
+                for f in [n for n in cls.body if isinstance(n, ast.FunctionDef)]:
+                    if f.name == 'register':
+                        tests = [ast.unparse(n.test) for n in ast.walk(f) if isinstance(n, ast.If) and "kind == 'expr'" in ast.unparse(n.test)]
+                        if not tests:
+                            reg_ok = True           # no early return at all: an expr symbol is always stored
+                        else:
+                            reg_ok = all('in symbol_kinds' not in t for t in tests)
+                    if f.name == 'delete':
+                        t = ast.unparse(f)
+                        del_ok = 'symbol_kinds.pop' in t or 'del symbol_kinds' in t
+            sd_ok = False
+            tree2 = ast.parse(open(os.path.join(d, 'sym.py')).read())
+            for f in [n for n in tree2.body if isinstance(n, ast.FunctionDef) and n.name == 'symbol_delete']:
+                t = ast.unparse(f)
+                sd_ok = '.delete(' in t or 'symbol_kinds.pop' in t
+            cleans = reg_ok or (del_ok and sd_ok)
+        except Exception:
+            self.unparsed.append('symbolregistry.py')
+        share = False
+        try:
+            tree = ast.parse(open(os.path.join(d, 'state.py')).read())
+            for cls in [n for n in tree.body if isinstance(n, ast.ClassDef) and n.name == 'State']:
+                for f in [n for n in cls.body if isinstance(n, ast.FunctionDef) and n.name == 'new_context']:
+                    share = 'context.symbols = self.symbols' in ast.unparse(f)
+        except Exception:
+            self.unparsed.append('state.py:new_context')
+        return cleans, share
+
     # ---- round 3: process-wide settings
     def settings(self):
         """(name, default, where) of the process-wide settings: constant attributes set in `State.__init__` (state.py)
@@ -1071,6 +1115,7 @@ def generate(repo):
     reserved = sc.reserved_names()
     handouts, mutations, damages = sc.shared_cached_objects()
     settings = sc.settings()
+    del_cleans, ctx_share = sc.symbol_registry()
     info = {'memoised': [m[0] for m in memo], 'cleared': cleared,
             'not_cleared': [m[0] for m in memo if m[0] not in cleared],
             'mutators': muts, 'initInvalidates': init_inv, 'overrideDetaches': detach, 'keepConnectedNode': keepn,
@@ -1080,7 +1125,8 @@ def generate(repo):
             'addRestoresContextOnError': restores_on_err, 'addInvalidatesOnError': inv_on_err,
             'ctorDetachesOnError': ctor_safe, 'registerDetachesOnError': reg_safe,
             'sharedHandouts': handouts, 'sharedMutations': mutations, 'damages': damages,
-            'settings': [(a, b) for (a, b, c) in settings if c], 'reserved': len(reserved)}
+            'settings': [(a, b) for (a, b, c) in settings if c], 'reserved': len(reserved),
+            'deleteCleansKinds': del_cleans, 'contextsShareSymbols': ctx_share}
 
     kindmap = {'lru': '.lru', 'cprop': '.cprop', 'hasattr': '.hasattr'}
     L = []
@@ -1149,6 +1195,12 @@ def generate(repo):
     L.append('')
     L.append('/-- `add` restores the symbol context (`state.restore_context()`) also when `_add` raises -/')
     L.append('def addRestoresContextOnError : Bool := %s' % ('true' if restores_on_err else 'false'))
+    L.append('')
+    L.append('/-- after `symbol_delete(n)` the name is unknown again to `SymbolRegistry.register(kind=\'expr\')` -/')
+    L.append('def deleteCleansKinds : Bool := %s' % ('true' if del_cleans else 'false'))
+    L.append('')
+    L.append('/-- `State.new_context`: every context shares the one process-wide symbol registry -/')
+    L.append('def contextsShareSymbols : Bool := %s' % ('true' if ctx_share else 'false'))
     L.append('')
     L.append('/-- `Cpt.__init__` leaves no node attachment behind when it raises / `_add` detaches when `_cpt_add` raises -/')
     L.append('def ctorDetachesOnError : Bool := %s' % ('true' if ctor_safe else 'false'))
